@@ -14,6 +14,7 @@
 -/
 import QV.Proofs.ServerZone
 import QV.Proofs.ServerContext
+import QV.Proofs.WriterV0
 
 namespace QV.ServerSafety
 open QV QV.Writer QV.Server
@@ -329,35 +330,39 @@ theorem additionalLoop_safe (z : Zone.Zone) (hz : ZoneOK z) (start : Nat) (cs : 
       exact ⟨by simp, hi, Mono.refl _ _, fun _ h => by cases h⟩
 
 theorem shape_ns (cls ty : Nat) (h : ty = T "MB" ∨ ty = T "MD" ∨ ty = T "MF" ∨ ty = T "NS") :
-    componentTypes cls ty = [.compressibleName] := by
+    V0.componentTypes cls ty = [.compressibleName] := by
   have c : T "MB" = 7 ∧ T "MD" = 3 ∧ T "MF" = 4 ∧ T "NS" = 2 := by decide
   rw [c.1, c.2.1, c.2.2.1, c.2.2.2] at h
   rcases h with h | h | h | h <;> subst h <;>
-    simp [componentTypes, componentsTable, armMatches, Gen.typeConsts, List.lookup]
+    simp [V0.componentTypes_arms]
 
-theorem shape_mx (cls : Nat) : componentTypes cls (T "MX") = [.fixedLen 2, .compressibleName] := by
+theorem shape_mx (cls : Nat) : V0.componentTypes cls (T "MX") = [.fixedLen 2, .compressibleName] := by
   have : T "MX" = 15 := by decide
   rw [this]
-  simp [componentTypes, componentsTable, armMatches, Gen.typeConsts, List.lookup]
+  simp [V0.componentTypes_arms]
 
-theorem shape_srv (cls : Nat) : Shape (componentTypes cls (T "SRV")) 6 := by
+theorem shape_srv (cls : Nat) : Shape (V0.componentTypes cls (T "SRV")) 6 := by
   have : T "SRV" = 33 := by decide
   rw [this]
   by_cases h : cls = 1
   · right; right; right; subst h; decide
   · left
     have h' : ¬ 1 = cls := fun e => h e.symm
-    simp [componentTypes, componentsTable, armMatches, Gen.typeConsts, List.lookup, Gen.classConsts, h']
+    simp [V0.componentTypes_arms, h]
 
 theorem doAdditionalSectionProcessing_safe (z : Zone.Zone) (hz : ZoneOK z) (rrType : Nat)
     (rrset : Zone.Rrset) (hvo : Option HV) (s : PS) (hi : W.I s.w)
     (hhv : ∀ v, hvo = some v → HvOK W s.w v (rrset.rdatas.flatMap (rdataNames z.cls rrType))) :
     SafeP W (doAdditionalSectionProcessing z rrType rrset hvo) s (fun _ _ => True) := by
   unfold doAdditionalSectionProcessing
-  have loop : ∀ start, Shape (componentTypes z.cls rrType) start →
+  have loop : ∀ start, Shape (V0.componentTypes z.cls rrType) start →
       SafeP W (additionalLoop z start hvo rrset.rdatas 0) s (fun _ _ => True) := fun start hs =>
     additionalLoop_safe W z hz start _ hs hvo rrset.rdatas [] s hi (fun _ _ h => by cases h)
-      (fun v hv => by have := hhv v hv; unfold rdataNames at this; simpa using this)
+      (fun v hv => by
+        have := hhv v hv
+        rw [show rdataNames z.cls rrType = compNames (V0.componentTypes z.cls rrType) from
+          funext (rdataNames_v0 _ _)] at this
+        simpa using this)
   split
   · exact safe_pure_PM W () s hi trivial
   · split
@@ -523,10 +528,10 @@ theorem doReferral_safe (z : Zone.Zone) (hz : ZoneOK z) (child : NameL.Name) (hc
       have hsing : ∀ rd ∈ ns.rdatas, ∃ n, rdataNames z.cls (T "NS") rd = [n] := by
         intro rd' hrd'
         obtain ⟨n, hn⟩ := hparse rd' hrd'
-        exact ⟨n, by unfold rdataNames; rw [shape_ns z.cls _ (Or.inr (Or.inr (Or.inr rfl)))]; simp [compNames, hn]⟩
+        exact ⟨n, by rw [rdataNames_v0, shape_ns z.cls _ (Or.inr (Or.inr (Or.inr rfl)))]; simp [compNames, hn]⟩
       obtain ⟨rd', hrd', hnames⟩ := flatMap_singletons_get _ _ hsing _ _ hn'
       rw [hrd] at hrd'; cases hrd'
-      unfold rdataNames at hnames
+      rw [rdataNames_v0] at hnames
       rw [shape_ns z.cls _ (Or.inr (Or.inr (Or.inr rfl)))] at hnames
       simp [compNames, hpr] at hnames
       exact hnames.symm
@@ -598,14 +603,13 @@ theorem lookupAll_cases (z : Zone.Zone) (hz : ZoneOK z) (name : NameL.Name)
 
 /-! ### CNAME chains -/
 
-theorem shape_cname (cls : Nat) : componentTypes cls (T "CNAME") = [.compressibleName] := by
+theorem shape_cname (cls : Nat) : V0.componentTypes cls (T "CNAME") = [.compressibleName] := by
   have : T "CNAME" = 5 := by decide
   rw [this]
-  simp [componentTypes, componentsTable, armMatches, Gen.typeConsts, List.lookup]
+  simp [V0.componentTypes_arms]
 
 theorem rdataNames_cname (cls : Nat) (n : WName) (h : n.WF) : rdataNames cls (T "CNAME") n.wire = [n] := by
-  unfold rdataNames
-  rw [shape_cname]
+  rw [rdataNames_v0, shape_cname]
   have := parse_wire n h []
   simp only [List.append_nil] at this
   simp [compNames, this]
